@@ -293,6 +293,10 @@ type c24Ctx struct {
 	rt  *rapid.T
 	cs  map[string]any
 	nt  bool // the executed part of the history met the non-triviality rule
+	// settle is how long the harness waits after the server installed its new
+	// protocol instance before it starts the next session (a short wait keeps the
+	// restart's own goroutines in flight; 0 can lose the Init: history ends)
+	settle time.Duration
 }
 
 func (x *c24Ctx) fail(key, what string) bool {
@@ -439,7 +443,7 @@ func c24RealReal(x *c24Ctx, ops []c24Op) {
 				for server.ProtocolInstance() == oldInst && time.Now().Before(deadline) {
 					time.Sleep(time.Millisecond)
 				}
-				time.Sleep(20 * time.Millisecond)
+				time.Sleep(x.settle)
 				restarted := within(callWait, func() {
 					_ = client.Stop()
 					client.Start()
@@ -692,7 +696,7 @@ func c24RawClient(x *c24Ctx, ops []c24Op) {
 			for server.ProtocolInstance() == old && time.Now().Before(deadline) {
 				time.Sleep(time.Millisecond)
 			}
-			time.Sleep(20 * time.Millisecond)
+			time.Sleep(x.settle)
 			if !sendInit() {
 				rec.Class("B:restart_not_usable")
 				x.cs["ended"] = fmt.Sprintf("restart after Done not usable (server errs %v)", h.errs.list())
@@ -811,7 +815,7 @@ func genWireOps(rt *rapid.T, maxOps int) []c24Op {
 		o := c24Op{Kind: "wire", Blocking: rapid.Bool().Draw(rt, "blocking")}
 		c := rapid.IntRange(0, 99).Draw(rt, "wire_class")
 		switch {
-		case c < 50 || (i < n-1 && c < 70):
+		case c < 40 || (i < n-1 && c < 60):
 			o.Class = "valid"
 			o.Req = fmt.Sprint(rapid.SampledFrom([]int{0, 1, 2, 3, 5, 10, 255, 256, 65534, 65535}).Draw(rt, "req"))
 			o.Ack = "full" // resolved against the model when played: 0..outstanding
@@ -1046,8 +1050,10 @@ func TestC24(t *testing.T) {
 	)
 	maxOps := rec.Pick(10, 16)
 	rec.Check(func(rt *rapid.T) {
-		fam := rapid.SampledFrom([]string{"A", "A", "B", "B", "C"}).Draw(rt, "family")
+		fam := rapid.SampledFrom([]string{"A", "A", "A", "B", "B", "B", "C", "C"}).Draw(rt, "family")
 		x := &c24Ctx{rec: rec, rt: rt, cs: map[string]any{"family": fam}}
+		x.settle = time.Duration(rapid.SampledFrom([]int{0, 50, 500, 5000, 20000}).Draw(rt, "settle_us")) * time.Microsecond
+		x.cs["settle"] = x.settle.String()
 		var ops []c24Op
 		if fam == "C" {
 			ops = genWireOps(rt, 6)
